@@ -103,7 +103,7 @@ def real_members(data: bytes, spec: str, bufsize: int = 1000):
                         async with await tar.extractfile(member) as f:
                             while c := await f.read(bufsize):
                                 content += c
-                    out.append((member.type.decode("latin1") + member.name, len(content), digest(content)))
+                    out.append((member.name, len(content), digest(content)))
         except tarfile.TarError as e:
             return ("error", type(e).__name__)
         return ("ok", out)
@@ -263,12 +263,16 @@ class C23(Property):
         return lines, expect, meta
 
     # ---- archives ----------------------------------------------------------------------------------------------------
-    def make_archives(self, ctx: Ctx, idx: int, simple: bool, big: int | None = None):
+    def make_archives(self, ctx: Ctx, idx: int, simple, big: int | None = None):
         """one random tree and its archives by every writer; returns (src path, base name, {writer: bytes})"""
         rng = ctx.rng
         parent = os.path.join(ctx.scratch, f"t{self.gen}_{idx}")
-        base = "src" if simple or rng.random() < 0.5 else rng.choice(["a b", "it's", "日本", "-dash"])
+        base = "src" if simple is True or rng.random() < 0.5 else rng.choice(["a b", "it's", "日本", "-dash"])
         src = os.path.join(parent, base)
+        if simple == "long":
+            make_tree(rng, src, max_entries=rng.choice([4, 10]), nasty=0.5, symlinks=False, long_names=True, big=None)
+            return src, base, {"tarfile-gnu": py_tar(parent, base, tarfile.GNU_FORMAT), "gnutar-gnu": gnu_tar(parent, base, "gnu"),
+                               "async-writer": async_write(src, base)}
         make_tree(rng, src, max_entries=rng.choice([0, 3, 8, 30]) if not simple else rng.choice([1, 4, 8]), nasty=0.0 if simple else 0.5,
                   symlinks=not simple, long_names=not simple, big=big)
         arch = {}
@@ -329,14 +333,14 @@ class C23(Property):
             ctx.count(f"cut:{cut[0]}:tree-complete")
         shutil.rmtree(dst, ignore_errors=True)
 
-    def archive_cases(self, ctx: Ctx, n_simple: int, n_rich: int, n_cuts: int):
+    def archive_cases(self, ctx: Ctx, n_simple: int, n_rich: int, n_cuts: int, n_long: int = 2):
         rng = ctx.rng
         lines, expect, meta = [], [], []
-        for i in range(n_simple + n_rich):
+        for i in range(n_simple + n_long + n_rich):
             if ctx.out_of_time():
                 ctx.extra["incomplete"] = True
                 break
-            simple = i < n_simple
+            simple = True if i < n_simple else ("long" if i < n_simple + n_long else False)
             big = (1 << 20) if (not simple and ctx.tier == "thorough" and i % 4 == 0) else None
             src, base, arch = self.make_archives(ctx, i, simple, big)
             want_tree = snapshot(src)
@@ -444,7 +448,7 @@ class C23(Property):
         self.nx = 0
         big = ctx.tier == "thorough" or ctx.mode == "search"
         lines, expect, meta = self.stream_cases(ctx, 1500 if big else 300)
-        l2, e2, m2 = self.archive_cases(ctx, 12 if big else 2, 25 if big else 3, 10 if big else 3)
+        l2, e2, m2 = self.archive_cases(ctx, 12 if big else 2, 25 if big else 3, 10 if big else 3, 8 if big else 2)
         self.writer_cases(ctx, 25 if big else 4)
         lines, expect, meta = lines + l2, expect + e2, meta + m2
         got = ctx.lean("Drivers/C23.lean", lines, timeout=900)
